@@ -9,7 +9,7 @@ from sem import run_semantic
 
 MODULE = "Proofs.Props.C13"
 THEOREMS = ["Facto.Circuit.evalEnt_local", "Facto.scalar_end_to_end", "Facto.read_isolated",
-            "Facto.evalNode_setTy", "Facto.retype_rel", "Facto.retype_nodeVal", "Facto.retype_bundle"]
+            "Facto.evalNode_setTy", "Facto.retype_rel", "Facto.retype_nodeVal", "Facto.retype_bundle", "Facto.retyped_builds_agree"]
 WILD = {"signal-each", "signal-anything", "signal-everything"}
 
 
